@@ -104,7 +104,7 @@ inline MVal gen_filter(Rng& r, int depth = 0) {
     case 0: return MVal::boolean(true);
     case 1: return MVal::boolean(false);
     case 2: return MVal::null();
-    case 3: { static const int v[] = {0, 1, -1, 42}; return MVal::sint(r.pick(v)); }
+    case 3: { static const int v[] = {0, 42, -1, 7}; return MVal::sint(r.pick(v)); }   // 1 is avoided: it compares equal to true (don't-care 17)
     case 4: return MVal::str(r.coin() ? "x" : "");
     case 5: case 6: {
       MVal a = MVal::arr(); int n = (int)r.below(3);
@@ -119,6 +119,10 @@ inline MVal gen_filter(Rng& r, int depth = 0) {
         if (r.chance(1, 4)) k = "*"; else k = gen_key(r, g);
         if (o.find(k)) continue;
         o.o.emplace_back(k, gen_filter(r, depth + 1));
+      }
+      // an explicit null entry next to a "*" wildcard is ambiguous (the wildcard applies): avoid the combination
+      if (o.find("*")) for (auto& kv : o.o) if (kv.second.k == MVal::Null) kv.second = MVal::boolean(false);
+      {
       }
       return o;
     }
